@@ -47,6 +47,16 @@ def plan(tier, seed):
                   amp=pick(rng, ["small", "mid", "large", "zero"]),
                   nd=int(rng.integers(1, 4)), npos=int(rng.integers(1, 21)),
                   sseed=int(rng.integers(1 << 30)))
+    # profiles of realistic size: tens of thousands of positions times hundreds of samples
+    # (more than 2**20 position-sample pairs)
+    for i in range(5 if quick else 40):
+        sim = SIMS[i % len(SIMS)]
+        if sim == "abrm_ptx":
+            sim = "abrm_hp"
+        P.add("sim", sim=sim, nt=int(pick(rng, [256, 129, 200])),
+              amp=pick(rng, ["small", "mid", "large"]), nd=int(rng.integers(1, 3)),
+              npos=int(pick(rng, [16384, 8192 + 3, 12000])), sseed=int(rng.integers(1 << 30)),
+              timeout=900)
     for pt in PTYPES:
         for ft in FTYPES:
             for i in range(1 if quick else 8):
@@ -199,6 +209,16 @@ def _run_sim(case):
         if sim == "abrm_ptx" and x.shape[0] >= 5:
             x[x.shape[0] // 2] = 0.0
         sig += "|degenerate"
+    ptol = 1.0
+    if g is not None and sim != "abrm_ptx" and case["sseed"] % 6 == 3 and nt >= 2:
+        # a gradient plateau with a few ppm of droop / ripple (constant to five or six digits,
+        # not exactly), seen from far away positions where those ppm are a visible phase: every
+        # sample still counts with its own value
+        g0 = np.asarray(g)[0] + 0.3
+        g = g0 * (1 + 8e-6 * rng.uniform(-1, 1, np.shape(g)))
+        x = np.asarray(x) * 600.0
+        ptol = 1.0 + float(np.max(np.abs(x))) * float(np.max(np.abs(g))) * max(1, np.ndim(g))
+        sig += "|near-constant-g"
     rfkind = case["sseed"] % 5
     utol = 1e-12
     if rfkind == 1 and sim != "abrm_ptx":
@@ -254,7 +274,7 @@ def _run_sim(case):
         e = float(max(np.max(np.abs(ar[::-1] - a)), np.max(np.abs(br[::-1] - b))))
         checks += 1
         obs["position_reversal"] = e
-        if not e <= max(1e-12, utol):
+        if not e <= max(1e-12, utol) * ptol:
             return violated(sig, "%s: simulating the reversed position list does not give the "
                             "reversed result (max difference %.3g): positions are not treated "
                             "independently / something is remembered between calls" % (sim, e),
@@ -268,7 +288,7 @@ def _run_sim(case):
         e = float(max(np.max(np.abs(ap - a)), np.max(np.abs(bp - b))))
         checks += 1
         obs["axis_permutation"] = e
-        if not e <= max(1e-11, utol * 10) * (1 + nt / 16):
+        if not e <= max(1e-11, utol * 10) * (1 + nt / 16) * ptol:
             return violated(sig, "%s: permuting the spatial axes of x and g together changes the "
                             "result by %.3g" % (sim, e), wit, mech="axis-permutation:" + sim,
                             obs=obs)
@@ -279,7 +299,7 @@ def _run_sim(case):
             e = float(max(np.max(np.abs(ad - a)), np.max(np.abs(bd - b))))
             checks += 1
             obs["unused_axis_dropped"] = e
-            if not e <= max(1e-11, utol * 10) * (1 + nt / 16):
+            if not e <= max(1e-11, utol * 10) * (1 + nt / 16) * ptol:
                 return violated(sig, "%s: dropping the spatial axes on which no gradient is "
                                 "played changes the result by %.3g" % (sim, e), wit,
                                 mech="unused-axis:" + sim, obs=obs)
@@ -299,7 +319,7 @@ def _run_sim(case):
         e = float(max(np.max(np.abs(a12 - a)), np.max(np.abs(b12 - b))))
         checks += 1
         obs["composition"] = e
-        if not e <= max(1e-11, utol * 10) * (1 + nt / 16):
+        if not e <= max(1e-11, utol * 10) * (1 + nt / 16) * ptol:
             return violated(sig, "%s: simulating the two halves and composing their rotations "
                             "differs from simulating the whole waveform by %.3g (split at %d "
                             "of %d)" % (sim, e, k, nt), wit, mech="composition:" + sim, obs=obs)
@@ -323,7 +343,7 @@ def _run_sim(case):
         e = float(max(np.max(np.abs(ag - whole[0])), np.max(np.abs(bg - whole[1]))))
         checks += 1
         obs["composition_rf_gap"] = e
-        if not e <= max(1e-11, utol * 10) * (1 + nt / 16):
+        if not e <= max(1e-11, utol * 10) * (1 + nt / 16) * ptol:
             return violated(sig, "%s: a pulse followed by an RF gap (zeros, gradient on) differs "
                             "from composing the pulse with the simulated gap by %.3g (gap of %d "
                             "samples)" % (sim, e, nt - k), wit, mech="composition-gap:" + sim,
